@@ -8,8 +8,12 @@ package main
 
 import (
 	"fmt"
+	"os"
+	"path/filepath"
 	"sort"
 	"strings"
+
+	"github.com/martian-lang/martian/martian/core"
 )
 
 func init() {
@@ -71,9 +75,54 @@ func depEdges(p *rtProgram) int {
 	return n
 }
 
+// metaStateExhaustive compares Metadata._getStateNoLock with the model's
+// metaState on EVERY subset of the state-bearing sentinel files (exhaustive: 2^7).
+func metaStateExhaustive(c *Ctx) {
+	r := c.Res
+	names := []core.MetadataFileName{core.Errors, core.Assert, core.CompleteFile, core.DisabledFile,
+		core.LogFile, core.JobInfoFile, core.QueuedLocally}
+	var reqs [][]string
+	var impl []string
+	for mask := 0; mask < 1<<len(names); mask++ {
+		dir := filepath.Join(c.Scratch, fmt.Sprintf("ms%d", mask))
+		os.MkdirAll(filepath.Join(dir, "files"), 0o755)
+		md := core.NewMetadata("ID.x.ST.fork0", dir)
+		var parts []string
+		for i, n := range names {
+			if mask&(1<<i) != 0 {
+				md.WriteRaw(n, "x")
+				parts = append(parts, string(n))
+			}
+		}
+		st, ok := core.VerifMetadataState(md)
+		if st == "" || !ok {
+			st = "none"
+		}
+		if string(st) == "waiting" && !ok {
+			st = "none"
+		}
+		impl = append(impl, fmt.Sprintf("%s %v", st, ok))
+		arg := "-"
+		if len(parts) > 0 {
+			arg = strings.Join(parts, ",")
+		}
+		reqs = append(reqs, []string{"C02.metastate", arg})
+	}
+	for i, rep := range c.Drv.AskBatch(reqs) {
+		r.hist("metastate_subsets")
+		if rep != impl[i] {
+			r.violate(Violation{Kind: "correspondence", Key: "C02:metastate-mismatch",
+				What:  "Metadata._getStateNoLock differs from the model's metaState on sentinel set " + reqs[i][1],
+				Input: reqs[i][1], Impl: impl[i], Model: rep,
+				Broken: "correspondence C02.metastate (exhaustive over sentinel subsets)"})
+		}
+	}
+}
+
 func runC02(c *Ctx) {
 	r := c.Res
 	r.Histogram = map[string]int{}
+	metaStateExhaustive(c)
 	r.Rule = "programs: corpus/tiera + corpus/C02 + the repo's map_call_edge_cases.mro + PRNG-generated well-typed programs (stages splitting or not, nested/aliased/mapped calls with static and run-time sizes, disabled modifiers, preflight), each run under >=2 PRNG schedules of the REAL scheduler with a fake job manager (random / adversarial newest-first completion, jobs finishing inside StepNodes, separate start events); each history is (a) replayed in the Lean Sched model (every launch must be enabled, every snapshot's derived states must equal the model's), (b) monitored directly: no job of a call starts before every job of every call it depends on (source-level dependency oracle incl. sub-pipeline boundaries, disabled conditions, map sources, preflights) has finished successfully; split before chunks before join; non-trivial = program has >=1 dependency edge and the schedule finished jobs out of launch order; distinct = (program text, history) hash"
 	n := 120
 	if c.Thorough {
